@@ -157,14 +157,7 @@ def run_check(prop, tier):
         sf = os.path.join(tmp, 'seeds-%d-%d.json' % (c, j))
         of = os.path.join(tmp, 'out-%d-%d.jsonl' % (c, j))
         json.dump(ss, open(sf, 'w', encoding='utf-8'))
-        env = dict(os.environ)
-        env['PYTHONHASHSEED'] = HASH_CLASSES[c]
-        env['PYTHONDONTWRITEBYTECODE'] = '1'
-        if c == len(HASH_CLASSES) - 1:
-            # process-level configuration is part of the environment the simulator owns:
-            # one worker class runs with a non-UTF-8 default text encoding (legacy locale)
-            env.update({'LC_ALL': 'C', 'LANG': 'C', 'PYTHONUTF8': '0',
-                        'PYTHONCOERCECLOCALE': '0'})
+        env = class_env(c)
         p = subprocess.Popen([PY, os.path.abspath(__file__), '--worker', prop, tier, sf, of,
                               str(cap)], env=env, stdout=subprocess.PIPE,
                              stderr=subprocess.STDOUT, text=True)
@@ -190,6 +183,21 @@ def run_check(prop, tier):
     import shutil
     shutil.rmtree(tmp, ignore_errors=True)
     return rc
+
+
+def class_env(c):
+    """Process-level configuration is part of the environment the simulator owns: every
+    worker class has its own hash seed; the last class runs with a non-UTF-8 default text
+    encoding (legacy locale), class 2 with `python -O` (assert statements are not executed)."""
+    env = dict(os.environ)
+    env['PYTHONHASHSEED'] = HASH_CLASSES[c]
+    env['PYTHONDONTWRITEBYTECODE'] = '1'
+    env['VERIF_PROCESS_CLASS'] = str(c)
+    if c == len(HASH_CLASSES) - 1:
+        env.update({'LC_ALL': 'C', 'LANG': 'C', 'PYTHONUTF8': '0', 'PYTHONCOERCECLOCALE': '0'})
+    if c == 2:
+        env['PYTHONOPTIMIZE'] = '1'
+    return env
 
 
 def finish(prop, tier, mod, base_seed, results, wall, harness_errors, planned, tmp):
@@ -316,6 +324,7 @@ def write_replay(prop, mod, r):
     obj = dict(r.get('replay') or {})
     obj.update({'format': 'simwn-replay-1', 'property': prop, 'seed': r['seed'],
                 'hashseed': HASH_CLASSES[hash_class(r['seed'])],
+                'process_class': hash_class(r['seed']),
                 'violation': r['violation'], 'digest': r['digest']})
     if os.environ.get('VERIF_NO_MINIMISE') != '1' and hasattr(mod, 'replay'):
         try:
@@ -333,7 +342,12 @@ def write_replay(prop, mod, r):
 def run_replay(prop, path):
     obj = json.load(open(path, encoding='utf-8'))
     want = obj.get('hashseed')
-    if want is not None and os.environ.get('PYTHONHASHSEED') != str(want):
+    pc = obj.get('process_class')
+    if pc is not None and os.environ.get('VERIF_PROCESS_CLASS') != str(pc):
+        # same kind of process as the run that failed (hash seed, locale, -O)
+        return subprocess.call([PY, os.path.abspath(__file__), prop, '--replay', path],
+                               env=class_env(int(pc)))
+    if pc is None and want is not None and os.environ.get('PYTHONHASHSEED') != str(want):
         env = dict(os.environ)
         env['PYTHONHASHSEED'] = str(want)
         return subprocess.call([PY, os.path.abspath(__file__), prop, '--replay', path], env=env)
